@@ -67,7 +67,9 @@ Mutants(scn, i) ==
   {M("none", b)}
   \* header fields
   \cup {M("slot", [b EXCEPT !.slot = s]) : s \in {6, 7}}
-  \cup {M("slice", [b EXCEPT !.slice = s]) : s \in {0, 2, MaxSlices, sl.slice + MaxSlices}}
+  \cup {M("slice", [b EXCEPT !.slice = s]) : s \in {0, 2, MaxSlices, sl.slice + MaxSlices,
+                                                                 \* aliases of a commitment that keeps fewer bits of the index
+                                                                 sl.slice + 256, sl.slice + 512, sl.slice + 768}}
   \cup {M("islast", [b EXCEPT !.isLast = ~@])}
   \* shred index: in range, beyond the range (index + k*Total aliases)
   \cup {M("index", [b EXCEPT !.index = j]) : j \in IndexTargets(i)}
